@@ -51,6 +51,9 @@ fn pool() -> Vec<PM> {
         p(b"A:B;E;B?\n", Kind::Sound),
         p(b"A:N 5,'ab'\n", Kind::Sound),
         p(b"*A?\n", Kind::Sound),
+        // responses longer than their messages (several answers per read exceed N together)
+        p(b"A?\n", Kind::Sound),
+        p(b"A:D?\n", Kind::Sound),
         p(b"@\n", Kind::ParseFault),
         p(b"Z\n", Kind::ParseFault),
         p(b"E?\n", Kind::ExecFault),
